@@ -1,7 +1,7 @@
 #!/bin/bash
 # usage: seed_pipeline_g.sh gN [EXTRA_CHECK...]  — round-4 (by file group) outputs in /tmp/mut_out/gN: up to 3 changes, each naming the property it breaks
 g=$1; shift
-t=/verif/harness/tools; o=/tmp/mut_out/$g; wt=/tmp/mut_$g
+t=/verif/harness/tools; o=/tmp/mut_out/$g; wt=${WT:-/tmp/mut_$g}
 for k in 1 2 3; do
   [ -f $o/patch$k.diff ] && [ -f $o/meta$k.json ] || continue
   prop=$(python3 -c "import json,re; m=json.load(open('$o/meta$k.json')); p=str(m.get('property','')); r=re.findall(r'C[0-9][0-9]',p); print(r[0] if r else 'C01')")
